@@ -257,50 +257,57 @@ class PairRaceRun(RaceRun):
             info.get("a"), info.get("b"), info.get("preempted_at"), info.get("site")), self.name, dict(decisions=list(I.path.taken), script=list(self.log)), model, detail))
 
 
-def confirm_pair(v, name, cfg, attempts=30):
-    """Two OS threads released by one barrier, each completing one of the two acts, on the real engine; then everything open is answered and the
-    same flow oracles are evaluated on what the engine shows."""
+def observe_pair(name, cfg, prop, script, zmodel, attempts=60):
+    """Two OS threads released by one barrier, each completing one of the two acts, on the real engine (up to `attempts` fresh runs: the window is
+    narrow); then everything open is answered and the same flow oracles are evaluated on what the engine shows.  Returns the union of roles seen."""
     from . import replay
     from .flow import ReplayRun, concrete_inputs as flow_inputs
     model, inputs = scen.catalogue()[name]
-    script = v.decisions["script"]
     pair = [e for e in script if "race_pair" in e]
     if not pair:
         return None, None
     pair = pair[0]
-    sc_inputs = flow_inputs(inputs, v.model)
+    sc_inputs = flow_inputs(inputs, zmodel)
     steps = [{"op": "start", "mid": model["id"], "inputs": sc_inputs},
              {"op": "race_pair", "nids": pair["race_pair"], "options": pair["options"]},
              {"op": "answer_all", "max": 12, "options": {}}]
-    seen = []
-    want = v.role.split(":", 1)[1]
+    union = set()
+    first = {}
+
+    class V:
+        pass
+
     for a in range(attempts):
         out = replay.run({"config": {"keep_processes": True}, "threads": 4, "models": [model], "steps": steps, "known_nids": sorted(replay.node_ids(model))})
         if "error" in out:
-            seen.append(out["error"][:200])
             continue
         obs = replay.normalise(out)
         roles = []
         views = [dict(obs, procs=sn["procs"], messages=obs["messages"][: sn["nmsg"]], events=obs["events"][: sn["nevents"]]) for sn in obs["snapshots"] if sn["procs"]] + [obs]
         rr = None
         for view in views:
-            rr = ReplayRun(name, cfg, v.prop, view, model)
+            rr = ReplayRun(name, cfg, prop, view, model)
             rr.log = []
             for o in cfg.oracles:
                 f = getattr(rr, "q_" + o, None)
                 if f:
                     f("replay")
             roles += [r for r, d in rr.found]
+        vv = V()
+        vv.model, vv.role = zmodel, ""
         for o in cfg.oracles:
             f = getattr(rr, "r_" + o, None)
             if f:
                 rr.found = []
-                f(v, obs)
+                f(vv, obs)
                 roles += [r for r, d in rr.found]
-        seen.append(sorted(set(roles))[:4])
-        if want in roles:
-            return True, dict(scenario=steps, attempt=a, roles=sorted(set(roles)), tasks=[(t["nid"], t["state"]) for t in (obs["procs"][0]["tasks"] if obs["procs"] else [])])
-    return False, dict(tried=seen[-5:])
+        for r in set(roles):
+            if r not in first:
+                first[r] = dict(attempt=a, tasks=[(t["nid"], t["state"]) for t in (obs["procs"][0]["tasks"] if obs["procs"] else [])])
+        union |= set(roles)
+        if union and a >= 20:
+            break
+    return union, dict(scenario=steps, attempts=a + 1, first_seen=first)
 
 
 def run_pair_race(I, name, cfg_kw, prop):
@@ -319,14 +326,26 @@ def run_pair_race(I, name, cfg_kw, prop):
         r.run(snaps)
 
     res = explore(I, "pair-race:" + name, one, max_paths=cfg.max_paths, seed=cfg_kw.get("seed", 0))
-    seen = {}
-    for v in res.violations:
-        if v.role in seen:
-            v.confirmed, v.replay = seen[v.role]
-            continue
-        if len(seen) >= 6:
-            continue
-        okc, info = confirm_pair(v, name, cfg)
-        v.confirmed, v.replay = okc, info
-        seen[v.role] = (okc, info)
+    if res.violations:
+        from mirsym.harness import load_known
+        known = load_known()
+        v0 = res.violations[0]
+        union, info = observe_pair(name, cfg, prop, v0.decisions["script"], v0.model)
+        keep = []
+        dropped = set()
+        for v in res.violations:
+            want = v.role.split(":", 1)[1]
+            if union is not None and want in union:
+                v.confirmed, v.replay = True, info
+                keep.append(v)
+            elif (known.get((prop, v.role)) or {}).get("status") == "known":
+                v.confirmed, v.replay = None, dict(note="listed finding; the real-engine race did not show it in this run", **(info or {}))
+                keep.append(v)
+            else:
+                # a race the real engine did not show in the attempts made: not reported (it may need a narrower window, or the model may allow an
+                # interleaving the engine's locking excludes); listed as inconclusive in the evidence
+                dropped.add(v.role)
+        res.violations = keep
+        if dropped:
+            res.inconclusive = "race counterexamples not reproduced on the real engine in %s attempts (not reported): %s" % ((info or {}).get("attempts"), sorted(dropped)[:6])
     return res
